@@ -8,14 +8,40 @@ verus! {
 
 //@ include _std_extra.inc
 
-// ---- assumed interface: headers.rs `Headers` -------------------------------------------------
+// ---- headers.rs `Headers`: a HashMap<String, String> (assumed container with a ghost map view) -------
 #[verifier::external_body]
-struct Headers {
+struct StrMap {
     inner: std::collections::HashMap<String, String>,
 }
+impl StrMap {
+    uninterp spec fn view(&self) -> Map<Seq<char>, Seq<char>>;
+    // assumed std contract: HashMap<String,String>::insert
+    #[verifier::external_body]
+    fn insert(&mut self, k: String, v: String) -> (r: Option<String>)
+        ensures final(self)@ == old(self)@.insert(k@, v@),
+    { self.inner.insert(k, v) }
+}
+// std `ToString` for the key / value types (assumed interface: the text a value converts to)
+trait ToStr {
+    spec fn tostr(&self) -> Seq<char>;
+    fn to_string(&self) -> (r: String) ensures r@ == self.tostr();
+}
+impl ToStr for String {
+    closed spec fn tostr(&self) -> Seq<char> { self@ }
+    #[verifier::external_body]
+    fn to_string(&self) -> (r: String) { self.clone() }
+}
+// assumed std contract: str::to_ascii_lowercase / to_lowercase return SOME function of the text
+pub uninterp spec fn ascii_lower(s: Seq<char>) -> Seq<char>;
+pub assume_specification[str::to_ascii_lowercase](s: &str) -> (r: String)
+    ensures r@ == ascii_lower(s@);
+
+//@ extract wtransport-proto/src/headers.rs >> struct Headers
+//@ rename `HashMap<String, String>` => `StrMap`
+//@ end
 
 impl Headers {
-    uninterp spec fn view(&self) -> Map<Seq<char>, Seq<char>>;
+    spec fn view(&self) -> Map<Seq<char>, Seq<char>> { self.0@ }
 
     // assumed std contract: HashMap<String,String>::get + as_str
     #[verifier::external_body]
@@ -26,8 +52,14 @@ impl Headers {
                 None => !self@.contains_key(key@),
             },
     {
-        self.inner.get(key).map(|s| s.as_str())
+        self.0.inner.get(key).map(|s| s.as_str())
     }
+
+// the field is stored under EXACTLY the given name with exactly the given value; nothing else changes
+//@ extract wtransport-proto/src/headers.rs >> impl Headers >> fn insert
+//@ rename `ToString` => `ToStr`
+//@ ensures final(self)@ == old(self)@.insert(key.tostr(), value.tostr())
+//@ end
 }
 
 // ---- ids.rs StatusCode: contract of FromStr as proved by Kani (p_statuscode_from_str) ---------
@@ -95,7 +127,31 @@ spec fn is_wt_request(h: Map<Seq<char>, Seq<char>>) -> bool {
     &&& present(h, ":path"@)
 }
 
+// the five reserved pseudo-headers (the content of SessionRequest::RESERVED_HEADERS is proved on the
+// real crate by Kani p_reserved_headers_list)
+spec fn reserved(k: Seq<char>) -> bool {
+    k == ":method"@ || k == ":scheme"@ || k == ":protocol"@ || k == ":authority"@ || k == ":path"@
+}
+struct ReservedHeader;
+// `Self::RESERVED_HEADERS.iter().any(|rh| rh == &key)`: membership in that list (iterator + closure,
+// outside Verus)
+#[verifier::external_body]
+fn is_reserved_header(key: &String) -> (r: bool) ensures r == reserved(key@) { unimplemented!() }
+
 impl SessionRequest {
+// C18: an application can never override a reserved pseudo-header - a reserved NAME is refused, any
+// other field is stored under exactly its own name, so every reserved field keeps its value
+//@ extract wtransport-proto/src/session.rs >> impl SessionRequest >> fn insert
+//@ rename `ToString` => `ToStr`
+//@ resub `Self::RESERVED_HEADERS\s*\.iter\(\)\s*\.any\(\|rh\| rh == &key\)` => `is_reserved_header(&key)`
+//@ ensures
+//@ | r is Err <==> reserved(key.tostr()),
+//@ | r is Err ==> final(self).0@ == old(self).0@,
+//@ | r is Ok ==> final(self).0@ == old(self).0@.insert(key.tostr(), value.tostr()),
+//@ | r is Ok ==> (forall|k: Seq<char>| reserved(k) ==> final(self).0@.contains_key(k) == old(self).0@.contains_key(k)
+//@ |     && (old(self).0@.contains_key(k) ==> final(self).0@[k] == old(self).0@[k])),
+//@ end
+
 //@ extract wtransport-proto/src/session.rs >> impl TryFrom<Headers> for SessionRequest >> fn try_from
 //@ subst `Self::Error` => `HeadersParseError`
 //@ prologue proof { reveal_strlit(":method"); reveal_strlit(":scheme"); reveal_strlit(":protocol"); reveal_strlit(":authority"); reveal_strlit(":path"); reveal_strlit("CONNECT"); reveal_strlit("https"); reveal_strlit("webtransport"); }
